@@ -177,12 +177,38 @@ def rule_b(ctx, ix):
                       'a listed group is registered on every path',
                       '%(func)s lists the new group with `%(stmt)s` but can finish without registering it')
     # loaders re-register every restored group
-    for q in ('glue.core.state._load_data_collection_2', 'glue.core.state._load_data_collection_4'):
+    # every registered DataCollection protocol that restores groups (whichever way the loaders of the versions build on each other)
+    from ..serial import Registry
+    reg_ = Registry(ix)
+    dcl = reg_.loaders.get('glue.core.data_collection.DataCollection', {})
+    qs = ['glue.core.state._load_data_collection_2', 'glue.core.state._load_data_collection_4']
+    for v_, lf_ in sorted(dcl.items()):
+        if lf_.qualname not in qs:
+            qs.append(lf_.qualname)
+
+    def reach(fn, seen):
+        """the loader and the module-level functions it calls (transitively)"""
+        if fn.qualname in seen:
+            return []
+        seen.add(fn.qualname)
+        out = [fn]
+        for c_ in calls_in(fn.node):
+            if isinstance(c_.func, ast.Name):
+                g_ = ix.functions.get('%s.%s' % (fn.module.name, c_.func.id))
+                if g_ is not None:
+                    out += reach(g_, seen)
+        return out
+    for q in qs:
         lf = ix.func(q)
+        chain = reach(lf, set())
+        restores = any('_subset_groups' in unparse(st.targets[0]) for g_ in chain for st in ast.walk(g_.node) if isinstance(st, ast.Assign))
+        if not restores:
+            continue            # a protocol without groups
         ok = False
-        for lp in [x for x in walk_no_nested(lf.node) if isinstance(x, ast.For)]:
-            if 'subset_groups' in unparse(lp.iter):
-                ok = any(call_name(c) == 'register_to_hub' and unparse(c.func.value) == unparse(lp.target) for c in calls_in(lp))
+        for g_ in chain:
+            for lp in [x for x in walk_no_nested(g_.node) if isinstance(x, ast.For)]:
+                if 'subset_groups' in unparse(lp.iter) or '_subset_groups' in unparse(lp.iter):
+                    ok = ok or any(call_name(c) == 'register_to_hub' and unparse(c.func.value) == unparse(lp.target) for c in calls_in(lp))
         ctx.ob(R, lf.construct, 'every restored group is registered to the hub', ok,
                detail='%s does not register the restored subset groups to the hub: datasets added after a restore get no subsets '
                       'for the existing groups' % lf.construct, where=lf.where)
